@@ -46,7 +46,8 @@ def run(chk, orch):
             spec = workload.random_spec(chk.rng)
             spec.update(paralogs=chk.rng.choice([1, 2, 2]), n_chr=chk.rng.choice([2, 3, 4]), secondary_seq=1, truncate=1,
                         intergenic_multi=chk.rng.choice([0, 1, 2]),
-                        dup_records=chk.rng.choice([0, 1]), n_exp=1, groups=0, equal_len=0)
+                        dup_records=chk.rng.choice([0, 1]), n_exp=1, groups=0, equal_len=0, paralog_iso=1,
+                        genes_per_chr=max(3, spec.get("genes_per_chr", 3)))
             opts = {"data_type": chk.rng.choice(["nanopore", "pacbio_ccs"]), "annotated": True,
                     "transcript_quant": chk.rng.choice(["unique_only", "with_ambiguous", "all"]),
                     "gene_quant": chk.rng.choice(["unique_only", "with_ambiguous", "all"])}
